@@ -360,19 +360,42 @@ theorem ModSub.modFacts {m m' : Module} (h : ModSub m m') : ModFacts m := by
 /-! ### what `instrOk` means -/
 
 /-- the instruction `i'` is `i` with operands replaced by operands of equal value (at the given points) -/
-def SubAt (ctx : Ctx) (f : Func) (T : DomTab) (ty : Bool) (u : Pos) (i i' : Instr) : Prop :=
+def SubAtG (ctx : Ctx) (f : Func) (T : DomTab) (ty : Bool) (u : Pos) (i i' : Instr) : Prop :=
   ∃ g : Operand → Operand, i' = mapOps g i ∧ calleeSame i (mapOps g i) = true ∧
     (∀ env, InvAt ctx f T u env → (ty = true → TyInv f env) → ∀ o ∈ i.uses, evalOpnd ctx env (g o) = evalOpnd ctx env o) ∧
     (∀ p ∈ i.phiIns, ∀ env, InvAt ctx f T (p.1, endIdx f p.1) env → (ty = true → TyInv f env) →
       evalOpnd ctx env (g p.2) = evalOpnd ctx env p.2)
 
+/-- `i` is a conditional jump on two integers that are known at `u`, `i'` the jump it takes -/
+def CjAt (ctx : Ctx) (f : Func) (T : DomTab) (u : Pos) (i i' : Instr) : Prop :=
+  ∃ a c b yes no va vb, i = .cjump a c b yes no ∧ i' = .jump (if condInt c va vb then yes else no) ∧
+    ∀ env, InvAt ctx f T u env → evalOpnd ctx env a = .ok (.int va) ∧ evalOpnd ctx env b = .ok (.int vb)
+
+def SubAt (ctx : Ctx) (f : Func) (T : DomTab) (ty : Bool) (u : Pos) (i i' : Instr) : Prop :=
+  SubAtG ctx f T ty u i i' ∨ CjAt ctx f T u i i'
+
 theorem instrOk_subAt {ctx : Ctx} {f : Func} {T : DomTab} (hf : SSAFacts f T) {ty : Bool} {u : Pos} {i i' : Instr}
     (h : instrOk f T ty u i i' = true) : SubAt ctx f T ty u i i' := by
   simp only [instrOk, Bool.or_eq_true, decide_eq_true_eq, Bool.and_eq_true, List.all_eq_true] at h
-  rcases h with rfl | ⟨⟨⟨h1, h0⟩, h2⟩, h3⟩
-  · exact ⟨id, (mapOps_id i).symm, by rw [mapOps_id]; cases i <;> simp [calleeSame],
+  rcases h with (rfl | hcj) | ⟨⟨⟨h1, h0⟩, h2⟩, h3⟩
+  · exact .inl ⟨id, (mapOps_id i).symm, by rw [mapOps_id]; cases i <;> simp [calleeSame],
       fun _ _ _ _ _ => rfl, fun _ _ _ _ _ => rfl⟩
-  · exact ⟨_, h1, h1 ▸ h0, fun env hinv hty o ho => justB_sound hf hinv hty _ _ _ (h2 o ho),
+  · right
+    cases i <;> try (simp [cjFold] at hcj; done)
+    case cjump a c b yes no =>
+      cases i' <;> try (simp [cjFold] at hcj; done)
+      case jump t =>
+        simp only [cjFold] at hcj
+        cases ha : knownInt f T u (justFuel f) a with
+        | none => simp [ha] at hcj
+        | some va =>
+          cases hb : knownInt f T u (justFuel f) b with
+          | none => simp [ha, hb] at hcj
+          | some vb =>
+            simp only [ha, hb, beq_iff_eq] at hcj
+            exact ⟨a, c, b, yes, no, va, vb, rfl, by rw [hcj],
+              fun env hinv => ⟨knownInt_sound hf hinv _ _ _ ha, knownInt_sound hf hinv _ _ _ hb⟩⟩
+  · exact .inl ⟨_, h1, h1 ▸ h0, fun env hinv hty o ho => justB_sound hf hinv hty _ _ _ (h2 o ho),
       fun p hp env hinv hty => justB_sound hf hinv hty _ _ _ (h3 p hp)⟩
 
 theorem instrsSub_length {f : Func} {T : DomTab} {ty : Bool} {bn : String} : ∀ {k : Nat} {l l' : List Instr},
@@ -419,20 +442,26 @@ theorem findFunc_sub {ty : Bool} : ∀ {fs fs' : List Func}, FuncsSub ty fs fs' 
 
 /-! ### layout -/
 
-theorem instrOk_map {f : Func} {T : DomTab} {ty : Bool} {u : Pos} {i i' : Instr} (h : instrOk f T ty u i i' = true) :
-    ∃ g : Operand → Operand, i' = mapOps g i := by
+/-- `instrOk` does not create, remove or change `literal` instructions (and anything else a function `lit`
+    sees that is invariant under operand renaming and blind to jumps) -/
+theorem instrOk_lit {α : Type} {f : Func} {T : DomTab} {ty : Bool} {u : Pos} {i i' : Instr} (lit : Instr → Option α)
+    (hlit : ∀ g i, lit (mapOps g i) = lit i) (hj : ∀ t, lit (.jump t) = none)
+    (hc : ∀ a c b y n, lit (.cjump a c b y n) = none) (h : instrOk f T ty u i i' = true) : lit i' = lit i := by
   simp only [instrOk, Bool.or_eq_true, decide_eq_true_eq, Bool.and_eq_true] at h
-  rcases h with rfl | ⟨⟨⟨h1, _⟩, _⟩, _⟩
-  · exact ⟨id, (mapOps_id i).symm⟩
-  · exact ⟨_, h1⟩
+  rcases h with (rfl | hcj) | ⟨⟨⟨h1, _⟩, _⟩, _⟩
+  · rfl
+  · cases i <;> try (simp [cjFold] at hcj; done)
+    cases i' <;> try (simp [cjFold] at hcj; done)
+    rw [hj, hc]
+  · rw [h1, hlit]
 
 theorem filterMap_sub {α : Type} {f : Func} {T : DomTab} {ty : Bool} {bn : String} (lit : Instr → Option α)
-    (hlit : ∀ g i, lit (mapOps g i) = lit i) :
+    (hlit : ∀ g i, lit (mapOps g i) = lit i) (hj : ∀ t, lit (.jump t) = none)
+    (hc : ∀ a c b y n, lit (.cjump a c b y n) = none) :
     ∀ {k : Nat} {l l' : List Instr}, InstrsSub f T ty bn k l l' → l'.filterMap lit = l.filterMap lit
   | _, _, _, .nil => rfl
   | _, _, _, .cons hok h => by
-    obtain ⟨g, rfl⟩ := instrOk_map hok
-    simp only [List.filterMap_cons, hlit, filterMap_sub lit hlit h]
+    simp only [List.filterMap_cons, instrOk_lit lit hlit hj hc hok, filterMap_sub lit hlit hj hc h]
 
 theorem blockLits_sub {f : Func} {T : DomTab} {ty : Bool} (fname : String) : ∀ {bs bs' : List Block}, BlocksSub f T ty bs bs' →
     (bs'.flatMap fun b => b.instrs.filterMap fun
@@ -444,7 +473,7 @@ theorem blockLits_sub {f : Func} {T : DomTab} {ty : Bool} (fname : String) : ∀
   | _, _, .nil => rfl
   | _, _, .cons _ ha hr => by
     simp only [List.flatMap_cons]
-    rw [blockLits_sub fname hr, filterMap_sub _ (by intro g i; cases i <;> rfl) ha]
+    rw [blockLits_sub fname hr, filterMap_sub _ (by intro g i; cases i <;> rfl) (by intros; rfl) (by intros; rfl) ha]
 
 theorem literals_sub {ty : Bool} : ∀ {fs fs' : List Func}, FuncsSub ty fs fs' →
     (fs'.flatMap fun f => f.blocks.flatMap fun b => b.instrs.filterMap fun
@@ -504,8 +533,10 @@ theorem phiValues_sub {ctx ctx' : Ctx} (hlay : ctx'.layout = ctx.layout) {f : Fu
     ∀ {k : Nat} {l l' : List Instr}, InstrsSub f T ty bn k l l' → phiValues ctx' env pred l' = phiValues ctx env pred l
   | _, _, _, .nil => rfl
   | _, _, _, .cons (i := i) (r := r) (r' := r') hok hrest => by
-    obtain ⟨g, rfl, _, _, hphi⟩ := instrOk_subAt (ctx := ctx) hf hok
     have ih := phiValues_sub hlay hf hinv hty hrest
+    rcases instrOk_subAt (ctx := ctx) hf hok with ⟨g, rfl, _, _, hphi⟩ | ⟨a, c, b, yes, no, va, vb, rfl, rfl, _⟩
+    case inr =>
+      rw [phiValues_nonphi _ _ _ _ rfl, phiValues_nonphi _ _ _ _ rfl]; exact ih
     cases hp : i.isPhi with
     | false =>
       rw [phiValues_nonphi _ _ _ _ hp, phiValues_nonphi _ _ _ _ (by rw [mapOps_isPhi]; exact hp)]
@@ -716,7 +747,26 @@ theorem subst_step {ctx ctx' : Ctx} (hc : CtxSub ctx ctx') {s s' : State} (hs : 
     rw [hdrop'] at hrest'
     obtain ⟨hik', hdropr', hklt'⟩ := drop_eq_cons hdrop'
     simp only [Nat.zero_add, hbn] at hok'
-    obtain ⟨g, rfl, hcallee, huses, hphis⟩ := instrOk_subAt (ctx := ctx) hf hok'
+    rcases instrOk_subAt (ctx := ctx) hf hok' with hG | hC
+    case inr =>
+      obtain ⟨a, c, b2, yes, no, va, vb, rfl, rfl, hab⟩ := hC
+      obtain ⟨ha, hb2⟩ := hab s.top.env hinv
+      have hterm := terminator_is_last (hf.term b0 hbm) hik rfl
+      have hend : endIdx s.top.fn s.top.cur = k0 := by simp only [endIdx, hb0]; omega
+      rw [stepE_cjump hr, ha, hb2] at h
+      rw [stepE_jump hrest']
+      have hcond : evalCond c (.int va) (.int vb) = .ok (condInt c va vb) := by cases c <;> rfl
+      simp only [hcond, bind, Except.bind] at h ⊢
+      cases hbk : enterBlock ctx { s.top with rest := r } (if condInt c va vb then yes else no) with
+      | error e => simp [hbk] at h
+      | ok nf =>
+        obtain ⟨nf', hbk', hrel⟩ := enterBlock_sub hc (fr := { s.top with rest := r })
+          (fr' := { s'.top with rest := r' }) hfn hcur henv hsp hrt (by rw [hend]; exact hinv) htyI _ hbk
+        simp only [hbk, pure, Except.pure, Except.ok.injEq] at h
+        subst h
+        exact ⟨.next { s' with top := nf' }, by simp only [hbk', pure, Except.pure],
+          ⟨hmem, htr, hrel, hcs⟩⟩
+    obtain ⟨g, rfl, hcallee, huses, hphis⟩ := hG
     have hops : ∀ o ∈ i.uses, evalOpnd ctx' s'.top.env (g o) = evalOpnd ctx s.top.env o := by
       intro o ho
       rw [henv, evalOpnd_ctx hc.layout]
